@@ -523,6 +523,40 @@ pub fn run(ctx: &Ctx) -> Report {
                     }
                 }
             }
+            // numbers that live inside annotation TEXT (layer, row, column and node numbers): one line of each kind
+            // re-written, and one appended decommitment line of a far-away layer
+            if let Some(ann) = doc["annotations"].as_array() {
+                let find = |needle: &str| ann.iter().position(|a| a.as_str().map(|s| s.contains(needle)).unwrap_or(false));
+                let mut text_cases: Vec<(String, usize, String)> = Vec::new(); // (desc, line, new text)
+                for big in [1u64 << 16, 1 << 24, 1 << 27, u32::MAX as u64, 1 << 40, u64::MAX] {
+                    if let Some(i) = find("/Decommitment/Layer 1: For node ") {
+                        let s0 = ann[i].as_str().unwrap();
+                        text_cases.push((format!("layer label -> {}", big), i, s0.replacen("/Decommitment/Layer 1:", &format!("/Decommitment/Layer {}:", big), 1)));
+                        if let Some(k) = s0.find("For node ") {
+                            let tail = &s0[k + 9..];
+                            let end = tail.find(':').unwrap_or(0);
+                            text_cases.push((format!("node number -> {}", big), i, format!("{}For node {}{}", &s0[..k], big, &tail[end..])));
+                        }
+                    }
+                    if let Some(i) = find("/Decommitment/Layer 1: Row ") {
+                        let s0 = ann[i].as_str().unwrap();
+                        if let (Some(k), Some(c)) = (s0.find(": Row "), s0.find(", Column ")) {
+                            text_cases.push((format!("row number -> {}", big), i, format!("{}: Row {}{}", &s0[..k], big, &s0[c..])));
+                            let after = &s0[c + 9..];
+                            let end = after.find(':').unwrap_or(0);
+                            text_cases.push((format!("column number -> {}", big), i, format!("{}, Column {}{}", &s0[..c], big, &after[end..])));
+                        }
+                    }
+                    if let Some(i) = find("/FRI/Commitment/Layer 1: Commitment") {
+                        let s0 = ann[i].as_str().unwrap();
+                        text_cases.push((format!("commitment layer label -> {}", big), i, s0.replacen("/Commitment/Layer 1:", &format!("/Commitment/Layer {}:", big), 1)));
+                    }
+                }
+                for (d, i, t) in text_cases {
+                    cases.push(Case { base: bi, desc: format!("parse: annotation text, {}", d), class: "parse:annotation-number".into(),
+                        value: Input::Edit { base: shared_doc.clone(), path: jw::parse_path(&format!("annotations[{}]", i)), value: Value::String(t) } });
+                }
+            }
             bs.push(Base { name: pf.name.clone(), layout: "parse:".into(), value: Value::Null });
             // fourth subject: the parsed structure itself (serde form), its declared counts at extremes
             if quick && pidx > 0 {
